@@ -24,7 +24,7 @@ import struct
 
 from hypothesis import strategies as st
 
-from vf import usage
+from vf import usage, streams
 from vf.enc import elf as W
 from vf.choose import RndChooser, HypChooser
 
@@ -633,7 +633,9 @@ def run_case(ctx, case):
     core = case['e_type'] == ET_CORE
     view = case['view']
     try:
-        ef = L.ELFFile(io.BytesIO(data))
+        st0, skind = streams.pick(data)        # BytesIO, minimal read/seek/tell object, memory map or real file
+        ctx.count('stream.' + skind)
+        ef = L.ELFFile(st0)
     except Exception as e:  # noqa
         ctx.fail_exc('open', e, case)
         _register(ctx, case, exp, data)
